@@ -183,7 +183,7 @@ func runCmd(args []string) {
 					continue
 				}
 			}
-			v.SchedDependent = hr.Spec.Opts.Sched
+			v.SchedDependent = hr.Spec.Opts.Sched || hr.Spec.Opts.MapOrder // needs an interleaving or a map iteration order: repeated native runs
 			h := sha1.Sum([]byte(s))
 			v.ReplayFile = filepath.Join(verifDir, "replay", spec.ID, fmt.Sprintf("%s-%x.json", v.Harness, h[:6]))
 			rf := map[string]interface{}{"property": spec.ID, "pkg": hr.Spec.Pkg, "harness": v.Harness, "kind": v.Kind, "label": v.Label, "msg": v.Msg, "tags": v.Tags, "vals": v.Vals, "params": hr.Params, "sig": v.Sig}
